@@ -387,7 +387,7 @@ def form_cases(draw):
             "kernel": draw(st.sampled_from([{"k": "SE"}, {"k": "RQ"}, {"k": "Sum", "parts": [{"k": "SE"}, {"k": "White"}]}])),
             "mean": draw(st.sampled_from(["Constant", "Linear", "Quadratic"])),
             "theta": [draw(st.floats(-1.5, 1.5)) for _ in range(12)],
-            "forms": {k: draw(st.sampled_from(INT_FORMS + ["float64"])) for k in ("x", "y", "err", "q")},
+            "forms": {k: draw(st.sampled_from(INT_FORMS + ["float64"] + (["list"] if k == "err" else []))) for k in ("x", "y", "err", "q")},
             "x_list": draw(st.booleans())}
 
 
@@ -406,9 +406,9 @@ def body_forms(case, ctx):
     def build(fx, fy, fe, xl):
         kw = {}
         if case["noise"] == "y_err":
-            kw["y_err"] = as_form(err, fe)
+            kw["y_err"] = as_form(err, fe) if fe != "list" else [float(v) for v in err]
         elif case["noise"] == "y_cov":
-            kw["y_cov"] = as_form(np.diag(err**2), fe)
+            kw["y_cov"] = as_form(np.diag(err**2), fe) if fe != "list" else np.diag(err**2).tolist()
         xin = as_form(X, fx)
         if xl:
             xin = [row for row in xin]
@@ -451,7 +451,7 @@ def body_forms(case, ctx):
 
 
 SUBCHECKS = [
-    Sub("posterior", lambda t: gc.gp_problems(max_n=25 if t == "thorough" else 16, min_n=2), body_posterior, quick=1400, thorough=50000,
+    Sub("posterior", lambda t: gc.gp_problems(max_n=25 if t == "thorough" else 16, min_n=1), body_posterior, quick=1400, thorough=50000,
         shards_quick=10, shards_thorough=16,
         rule="n >= 3 and (composite / change-point kernel or non-constant mean or d >= 2 or full y_cov), kappa <= 1e10"),
     Sub("relations", lambda t: gc.gp_problems(max_n=14, max_m=3, min_n=2), body_relations, quick=700, thorough=25000,
